@@ -168,14 +168,24 @@ type vfAdminClient struct {
 	onOpen          func(*vfClientStream)
 	autoClose       bool // every new stream immediately ends with EOF
 	ignoreCloseSend bool
+	openBlock       chan struct{} // non-nil: opening a stream blocks (connection still being established) until the context ends or this is closed
 }
 
 func (a *vfAdminClient) StreamWorkflowReplicationMessages(ctx context.Context, opts ...grpc.CallOption) (adminservice.AdminService_StreamWorkflowReplicationMessagesClient, error) {
 	a.mu.Lock()
 	err := a.openErr
+	blk := a.openBlock
 	a.mu.Unlock()
 	if err != nil {
 		return nil, err
+	}
+	if blk != nil {
+		select {
+		case <-ctx.Done():
+			return nil, status.FromContextError(ctx.Err()).Err()
+		case <-blk:
+			return nil, status.Error(codes.Unavailable, "verif: connection attempt abandoned")
+		}
 	}
 	cs := newVfClientStream(ctx)
 	cs.ignoreCloseSend = a.ignoreCloseSend
